@@ -471,7 +471,7 @@ def _ediff1d(draw, og):
     a = og.array(draw, min_ndim=1, max_ndim=2)
     kw = {}
     for key in ("to_begin", "to_end"):
-        if draw(st.integers(0, 2)) == 0:
+        if draw(st.booleans()):
             k = a["kind"] if a["kind"] != "f" or draw(st.booleans()) else "i"
             kw[key] = P(og.related(draw, a, (draw(st.integers(1, 2)),), kind=k))
     return {"args": [P(a)], "kw": kw}
